@@ -31,7 +31,6 @@ const smtPreamble = `(set-option :produce-models true)
 (assert (forall ((s Str)) (! (>= (slen s) 0) :pattern ((slen s)))))
 (assert (forall ((s Str)) (! (=> (= (slen s) 0) (= s str_empty)) :pattern ((slen s)))))
 (assert (= (itag 0) 0))
-(assert (forall ((a (Array Int Int)) (o Int) (n Int)) (! (=> (>= n 0) (= (slen (bytes2str a o n)) n)) :pattern ((bytes2str a o n)))))
 `
 
 func sAnd(xs ...string) string {
